@@ -21,7 +21,7 @@ def one(sd):
         out = subprocess.run([V + '/bin/lemolint', 'check', 'all', '--repo', d, '--verif', V, '--no-evidence'], env=ENV, stdout=subprocess.PIPE, stderr=subprocess.STDOUT, text=True).stdout
         caught, cur = {}, []
         for l in out.splitlines():
-            m = re.match(r'^(?:VIOLATED|UNDECIDED) (\S+):', l)
+            m = re.match(r'^(?:VIOLATED|UNDECIDED) (.+?): [a-z-]+ — ', l)
             if m:
                 cur.append(m.group(1)); continue
             m = re.match(r'^(C\d\d): \d+ obligations', l)
